@@ -324,6 +324,44 @@ func runC09(c *Ctx) {
 					detached, why = false, "it links the copy to a parent scope"
 				}
 			})
+			// ... and the values it hands over are the block's own: objects and arrays are Go maps and slices that
+			// assignment writes in place, so a binding copied by reference is still shared
+			isCopier := func(f *ssa.Function) bool {
+				if f == nil || len(f.Blocks) == 0 {
+					return false
+				}
+				mk, rec, sw := false, false, false
+				for _, g := range withAnon(f) {
+					eachInstr(g, func(_ *ssa.BasicBlock, _ int, ins ssa.Instruction) {
+						switch x := ins.(type) {
+						case *ssa.MakeMap, *ssa.MakeSlice:
+							mk = true
+						case *ssa.TypeAssert:
+							if _, isMap := x.AssertedType.Underlying().(*types.Map); isMap {
+								sw = true
+							}
+						case *ssa.Call:
+							if sf := staticFn(x); sf == f {
+								rec = true
+							}
+						}
+					})
+				}
+				return mk && rec && sw
+			}
+			nBind := 0
+			eachInstr(fn, func(_ *ssa.BasicBlock, _ int, ins ssa.Instruction) {
+				mu, ok := ins.(*ssa.MapUpdate)
+				if !ok || !derivesFrom(mu.Map, func(v ssa.Value) bool { return loadedFromField(v, "Environment", "vars") }) {
+					return
+				}
+				nBind++
+				copied := derivesFrom(mu.Value, func(v ssa.Value) bool {
+					cl, ok := v.(*ssa.Call)
+					return ok && isCopier(staticFn(cl))
+				})
+				c.ob("C09-R2", fnKey(fn)+"#hands-over-copies-of-objects-and-arrays-"+itoa(nBind), mu.Pos(), copied, "the detached environment receives the parent's bindings as they are: an object or array bound in the parent is the same Go map / slice in the block, and `$ o.f = v`, `o[i] = v`, set() and remove() write it in place - parent and block writing different fields of one object is an unsynchronised concurrent map write, which ends the process (the compiled engine copies: its values are immutable)")
+			})
 			c.ob("C09-R2", fnKey(fn)+"#returns-an-environment-without-parent", fn.Pos(), detached, "this function is what detaches an async block from its parent's live scopes, but "+why+": lookups and assignments in the block walk into a map the parent goroutine keeps writing (unsynchronised map access is fatal; the block's writes become visible to the parent)")
 		}
 	}
